@@ -84,6 +84,32 @@ CHECKS = {
              "each return the harness polls the parent's own descriptors (matched to the child's by pipe inode): events == requested and ready, count == "
              "sources with events, EPIPE iff nothing requested is pollable, and every reported event is consumed (read / 1-byte write / wait(0)) without "
              "blocking or would-block."),
+    "C02": dict(
+        cat="model_checking", design="3/C02",
+        technique="stateless model checking of the real library: exhaustive interleavings of scripted child writes/closes/exit with the parent's read/poll/write loop, byte-exact reference stream",
+        text="11 child scripts over stdout/stderr/stdin (interleaved writes, closes in either order, exit, read-to-EOF, echo, write to a closed descriptor) x "
+             "payload sizes {0,1,7,cap-1,cap,cap+1,2cap+3} with the pipes set to one page, plus 65535/65537 bytes and one 2 MiB transfer on default pipes "
+             "x stderr {pipe, merged into stdout, parent} x 8 parent loops (buffer 1/3/4096/70000, zero-size read first, poll-then-read, nonblocking+poll, "
+             "drain) x stdin feeds {0,1,7,cap,cap+1, start-up input}; child steps released at every scheduling point (up to 3 deviations quick / 4 thorough "
+             "for small payloads) and at every blocked read/write/poll. Position-dependent payload: every returned byte is compared with what the child "
+             "wrote at that offset (kernel write order for the merged stream); EPIPE only once the child has closed every descriptor on the stream and all "
+             "bytes were returned, then sticky without a system call; stdin bytes and EOF arrive; a blocked read after the child closed the stream is a violation."),
+    "C16": dict(
+        cat="model_checking", design="3/C16",
+        technique="stateless model checking of the real library: exhaustive interleavings x sink failure position x allocation-failure position x deadline expiry point, protocol oracle over the recorded sink calls",
+        text="6 two-stream scripts x sizes {0,1,4096,9000} (thorough adds 4095/4097) x stderr {pipe, stdout, parent} x sinks {recording, failing with a "
+             "negative/positive value at call k, string sink from NULL / pre-filled / shared by both streams} x realloc failure at every growth step x "
+             "deadline {none, 1..3 ms} expiring before/between/after output, through reproc_drain and reproc_run_ex. Oracle: two initial (in, 0) calls, "
+             "chunks equal the stream byte for byte, exactly one size-0 call per piped stream after its data, 0 iff both ended, first non-zero sink value "
+             "returned with no later call, ETIMEDOUT only at the deadline, string = previous content + bytes (intact after ENOMEM), run_ex = exit status."),
+    "C17": dict(
+        cat="model_checking", design="3/C17",
+        technique="stateless model checking of the real library with a blocked-interval log: every state of the pipe x operation x mode, livelock guard on busy waits",
+        text="nonblocking on/off x pipe {empty, partly filled, full (one page), far side closed} x {read stdout, read stderr, write 1 / cap / 3cap bytes} x child "
+             "{idle, one more step} and start-up input of {0,1,cap-1,cap,64Ki,64Ki+1,256Ki} bytes in both modes. Nonblocking: no intercepted call is ever found "
+             "blocked, results are a count / EPIPE / EWOULDBLOCK consistent with FIONREAD and the child's script position; input never blocks start and is "
+             "either delivered completely (child reads all of it, sees EOF) or start fails with no child; blocking: every blocked interval is ended by a step "
+             "of the child. A call that issues >20000 system calls without blocking or returning is reported as a busy wait."),
 }
 
 NOT_YET = "check not built yet (work in progress; see DESIGN.md section 7 for the build order)"
